@@ -215,6 +215,24 @@ class FuncDependentType(ParametrizedDependentType):
         )
         return p2g and not p1g
 
+    def _key(self):
+        # Dependent[int, f] makes a new class around f each time it is
+        # written: what identifies the type is the function
+        return (
+            getattr(type(self), "func", type(self)),
+            self.parameters,
+            self.bound,
+        )
+
+    def __eq__(self, other):
+        return (
+            isinstance(other, FuncDependentType)
+            and self._key() == other._key()
+        )
+
+    def __hash__(self):
+        return hash(self._key())
+
     def check(self, value):
         return type(self).func(value, *self.parameters)
 
